@@ -41,6 +41,7 @@ std::vector<Ev> g_events;
 
 void ev(int thread, int op, bool is_ret, uint32_t value) {
     g_events.push_back(Ev{++g_stamp, thread, op, is_ret, value});
+    if (is_ret && value != NONE) { sim::progress(); } // an element went into or out of the queue
 }
 
 void sim_sleep_us(int64_t us) {
@@ -407,6 +408,7 @@ void run_pool() {
         auto make_task = [&](TaskSpec t) {
             return [t, &executed, &running_now, &max_parallel]() -> int {
                 ++executed[static_cast<size_t>(t.id)];
+                sim::progress();
                 ++running_now[0];
                 if (running_now[0] > max_parallel) { max_parallel = running_now[0]; }
                 if (t.kind >= 2) {
